@@ -9,7 +9,7 @@ import (
 	"github.com/rogpeppe/go-internal/internal/verifrt/vfs"
 )
 
-const vExtractDir = "/w/dir"
+const vExtractDir = "/w/d" // short, so that sibling names sharing its prefix ("../dx") fit the name bound
 
 // vRefEscapes: reference classification of an entry name by a segment
 // stack: absolute, or climbing above the extraction directory.
